@@ -911,6 +911,7 @@ func seedfix3C20(c *Ctx) {
 
 func seedfix3C22(c *Ctx) {
 	u, r := c.U, c.R
+	routerConsultsNoComponent(c)
 	// R-AUTH-NIL-ON-REFUSAL: authenticate returns nil on every path that wrote a refusal.
 	if fn := c.Fn("R-AUTH-NIL-ON-REFUSAL", "(*HttpServer).authenticate"); fn != nil {
 		refusal := u.CallMatcher(Or(Is("(*HttpServer).writeUnauthorized"), Is("(*HttpServer).writeHttpError")), false)
@@ -1055,7 +1056,14 @@ func seedfix3C26(c *Ctx) {
 
 func seedfix3C29(c *Ctx) {
 	u, r := c.U, c.R
-	// R-RELEASE-DEFERRED-ONLY: request handlers drop the session lock only at return.
+	releaseDeferredOnly(c)
+	seedfix3C29rest(c, u, r)
+}
+
+// releaseDeferredOnly (R-RELEASE-DEFERRED-ONLY, C29 and C40): request handlers
+// drop the session lock only at return.
+func releaseDeferredOnly(c *Ctx) {
+	u, r := c.U, c.R
 	for _, name := range []string{"(*HttpServer).handleStreamInit", "(*HttpServer).handleStreamExchange", "(*HttpServer).handleUnary"} {
 		fn := u.Func(name)
 		if fn == nil {
@@ -1075,6 +1083,10 @@ func seedfix3C29(c *Ctx) {
 		})
 		r.Check(nDefer == 1, "R-RELEASE-DEFERRED-ONLY", name+"|deferred", u.Pos(fn.Pos()), "lock released by one deferred call", itoa(nDefer)+" deferred ReleaseLock calls")
 	}
+	r.Floor("R-RELEASE-DEFERRED-ONLY", 3)
+}
+
+func seedfix3C29rest(c *Ctx, u *Unit, r *Report) {
 	// R-REMOVE-BEFORE-CLOSE: the sweep takes an expired entry out of the map before its state is closed.
 	if fn := c.Fn("R-REMOVE-BEFORE-CLOSE", "(*sessionRegistry).drainExpired"); fn != nil {
 		isDel := func(in ssa.Instruction) bool {
@@ -1095,7 +1107,6 @@ func seedfix3C29(c *Ctx) {
 	if fn := u.Func("openSessionToken"); fn != nil {
 		constSliceBoundsCovered(c, "R-TOKEN-BOUNDS", fn)
 	}
-	r.Floor("R-RELEASE-DEFERRED-ONLY", 3)
 	r.Floor("R-REMOVE-BEFORE-CLOSE", 1)
 	r.Floor("R-TOKEN-BOUNDS", 2)
 }
